@@ -126,7 +126,14 @@ func GraphModel(spec *GraphSpec) porcupine.Model {
 			case OpExist:
 				return fmt.Sprintf("exist(%b)->%v", i.Mask, out)
 			}
-			return fmt.Sprintf("%s->%d results", spec.Queries[i.Q], strings.Count(out.(string), "\x1c")+1)
+			o := out.(string)
+			n := 0
+			if o != "" {
+				n = strings.Count(o, "\x1c") + 1
+			}
+			// which universe triples the result stands for is what matters when a
+			// history is read by hand: show the states that would explain it
+			return fmt.Sprintf("%s->%d results {%s}", spec.Queries[i.Q], n, strings.ReplaceAll(o, "\x1c", " | "))
 		},
 		DescribeState: func(st interface{}) string { return fmt.Sprintf("%b", st.(uint64)) },
 	}
